@@ -27,8 +27,8 @@ META = {
     "assumptions": ["documents on which resolving the path argument is itself an error by C04 (`single` with several "
                     "matches, datum modifier undefined on a selected node) are executed, counted and not judged",
                     "the literal rule is judged by the implementation itself (relational oracle): leaf meanings are C01's business"],
-    "bounds": {"quick": {"documents": "~190", "positions": 21, "path arguments": 18},
-               "thorough": {"documents": "~190 + F-type two-level", "positions": 21, "path arguments": 18}},
+    "bounds": {"quick": {"documents": "~190", "positions": 21, "path arguments": 20},
+               "thorough": {"documents": "~190 + F-type two-level", "positions": 21, "path arguments": 20}},
 }
 
 L = T.leaf
@@ -42,6 +42,7 @@ PARGS = [
     P((("prim", "zz"), Ls)), P(()), P((("prim", "b"),), "dtype"),
     P((("prim", "jobs"), Ls, ("prim", "cores")), None, "first"), P((("prim", "jobs"), Ls, ("prim", "cores")), None, "last"),
     P((M, ("prim", "x")), "length", "first"),
+    P((("prim", "tbl"), Ls, Ls)), P((("prim", "tbl"), Ls, Ls), None, "last"),      # a fan-out over several lists whose items all match
 ]
 
 
@@ -95,6 +96,10 @@ def documents(tier):
     for x in (1, 4, "a"):
         out.append({"a": x, "jobs": [{"name": "a"}, {"name": "b", "cores": 4}, {"cores": 1}, {"name": "c"}], "m": {"x": [x]}})
         out.append({"a": x, "jobs": [{"cores": x}, {}], "b": {"y": 1}, "m": {"x": [1, 2]}, "n": {"x": "abc"}})
+    # a table (list of lists) for two-level fan-out arguments
+    for x in (1, 4, [1, 2, 3, 4], 9):
+        out.append({"a": x, "b": 4, "tbl": [[1, 2], [3, 4]], "lst": [4, 1]})
+        out.append({"a": x, "tbl": [[x], [], [4, x]], "m": {"x": 4}})
     # adjacent documents that compare == but differ in type (1 == True == 1.0): a re-used rule must not confuse them
     for seq in ([1, True, 1.0, 1], [0, False, 0.0], [[1], [True], [1.0]], [{"x": 1}, {"x": True}]):
         for x in seq:
@@ -189,11 +194,17 @@ def subst(t, lit):
 
 
 def observe(rule, doc):
+    from mc.snapshot import vsnap
+    d = fresh(doc)
+    before = vsnap(d)
     try:
-        rt = rule.test(fresh(doc))
-        return ("ok", rt.is_valid, rt.tested, tuple(tuple(f.path) for f in rt.failures))
+        rt = rule.test(d)
+        out = ("ok", rt.is_valid, rt.tested, tuple(tuple(f.path) for f in rt.failures))
     except BaseException as e:
-        return ("raises", type(e).__name__)
+        out = ("raises", type(e).__name__)
+    if vsnap(d) != before:      # (C08's side condition, where it is cheap: resolving an argument must not edit the document)
+        out = out + ("DOCUMENT CHANGED", repr(d))
+    return out
 
 
 def check_case(res, pos, pa, rt, doc, key, shared=None, history=()):
@@ -246,10 +257,41 @@ def check_case(res, pos, pa, rt, doc, key, shared=None, history=()):
         res.violation("spec:%s" % sig, "spec-built rule with '{path..}' argument (%s) on %r differs from the rule with the "
                       "resolved literal %r" % (pos, doc, lit), case, observed=got2, expected=want)
         return
+    # the same spec held in containers of sub-types of dict / list (what a round-trip YAML loader or
+    # json.loads(object_pairs_hook=OrderedDict) hands out)
+    res.count("transitions")
+    try:
+        if "spec_sub" not in shared:
+            shared["spec_sub"] = Rule.from_spec(_sub_containers(S.rule_spec(rt)))
+        r3 = shared["spec_sub"]
+    except BaseException as e:
+        res.violation("spec-parse:subtype-containers:%s:%s" % (type(e).__name__, pos), "rule spec %r in OrderedDict / list-subtype containers "
+                      "was rejected: %r" % (spec, e), case, observed=repr(e))
+        return
+    got3 = observe(r3, doc)
+    if got3 != want:
+        res.violation("spec:subtype-containers:%s" % sig, "spec-built rule (spec held in OrderedDict / list-subtype containers) with '{path..}' "
+                      "argument (%s) on %r differs from the rule with the resolved literal %r" % (pos, doc, lit), case, observed=got3, expected=want)
+        return
     res.count("validated")
     if want[0] == "ok" and want[2]:
         res.count("nontrivial")
     res.outcome(want[:2])
+
+
+class _SubList(list):
+    pass
+
+
+def _sub_containers(x):
+    import collections
+    if isinstance(x, dict):
+        return collections.OrderedDict((k, _sub_containers(v)) for k, v in x.items())
+    if isinstance(x, list):
+        return _SubList(_sub_containers(i) for i in x)
+    if isinstance(x, tuple):
+        return tuple(_sub_containers(i) for i in x)
+    return x
 
 
 def check_escaped(res):
